@@ -62,6 +62,14 @@ Print Assumptions mips_nodup_temps_distinct.
 Theorem mips_branch_okb_ok : forall a b, branch_okb a b = true -> branch_ok a b.
 Proof. exact branch_okb_ok. Qed.
 Print Assumptions mips_branch_okb_ok.
+(* ... and conversely: the executable tests are exactly the hypotheses, so the tie never excludes an encoding
+   that the theorems cover *)
+Theorem mips_fields_okb_complete : forall i, fields_ok i -> fields_okb i = true.
+Proof. exact fields_okb_complete. Qed.
+Print Assumptions mips_fields_okb_complete.
+Theorem mips_branch_okb_complete : forall a b, branch_ok a b -> branch_okb a b = true.
+Proof. exact branch_okb_complete. Qed.
+Print Assumptions mips_branch_okb_complete.
 
 (* 5. known findings: witnesses *)
 Theorem mips_jr_target_read_after_slot_refuted :
@@ -84,6 +92,9 @@ Print Assumptions ppc_forms_correct.
 Theorem ppc_fields_okb_ok : forall i, PpcLift.pfields_okb i = true -> PpcProofs.pfields_ok i.
 Proof. exact PpcProofs.pfields_okb_ok. Qed.
 Print Assumptions ppc_fields_okb_ok.
+Theorem ppc_fields_okb_complete : forall i, PpcProofs.pfields_ok i -> PpcLift.pfields_okb i = true.
+Proof. exact PpcProofs.pfields_okb_complete. Qed.
+Print Assumptions ppc_fields_okb_complete.
 
 (* the hypotheses are satisfiable: the sampled states of the check are well formed and embedded *)
 Example mips_hypotheses_satisfiable :
